@@ -197,6 +197,9 @@ mod builtins {
     use std::mem;
     use std::sync::Arc;
 
+    /// The largest indentation (in spaces) the `indent` and `tojson` filters accept.
+    const MAX_INDENT_WIDTH: usize = 1_000_000;
+
     /// Converts a value to uppercase.
     ///
     /// ```jinja
@@ -1196,6 +1199,12 @@ mod builtins {
         };
         ok!(args.assert_all_used());
         if let Some(indent) = indent {
+            if indent > MAX_INDENT_WIDTH {
+                return Err(Error::new(
+                    ErrorKind::InvalidOperation,
+                    "indentation width is too large",
+                ));
+            }
             let indentation = " ".repeat(indent);
             serialize_json(
                 value,
@@ -1276,6 +1285,13 @@ mod builtins {
             None => ok!(kwargs.get::<Option<bool>>("blank")).unwrap_or(false),
         };
         ok!(kwargs.assert_all_used());
+
+        if width > MAX_INDENT_WIDTH {
+            return Err(Error::new(
+                ErrorKind::InvalidOperation,
+                "indentation width is too large",
+            ));
+        }
 
         let input = strip_trailing_newline(value.as_str());
         let indent_with = " ".repeat(width);
